@@ -1,6 +1,7 @@
 """C16 - design-variable nodes receive in-range values exactly when they exist (DESIGN.md 6/C16)"""
 import math
 from hypothesis import strategies as st
+from ..strat import ints
 from .. import specs, build
 from ..core import Result, viol, exc_sig
 from ..observe import observe, decode_one
@@ -24,13 +25,13 @@ CONT_OFFSETS = ['lo', 'hi', 'mid', 'lo-10', 'hi+10', 'lo+0.25', '-inf', '+inf']
 @st.composite
 def _case(draw, tier):
     spec = draw(specs.sel_spec(min_nodes=3, max_nodes=8, max_incompat=1, p_extra=draw(st.booleans())))
-    if draw(st.integers(0, 3)) == 0:
+    if draw(ints(0, 3)) == 0:
         spec = draw(specs.add_linked_dvs(spec))
     spec = draw(specs.add_dvs(spec, max_dv=3))
     if not any(nd['k'] == 'dv' for nd in spec['nodes'].values()):
         spec['nodes']['dvx'] = {'k': 'dv', 'opts': 3}
         spec['edges'].append([draw(st.sampled_from(specs.gen_nodes(spec))), 'dvx'])
-    picks = draw(st.lists(st.tuples(st.integers(0, 10**6), st.sampled_from(DISC_VALUES), st.sampled_from(CONT_OFFSETS)),
+    picks = draw(st.lists(st.tuples(ints(0, 10**6), st.sampled_from(DISC_VALUES), st.sampled_from(CONT_OFFSETS)),
                           min_size=4, max_size=10))
     # baseline: a value is set on the design-space graph itself before the processor is created (1 in 4)
     return {'spec': spec, 'enc': draw(st.sampled_from(['COMPLETE', 'FAST'])), 'picks': [list(p) for p in picks],
